@@ -196,6 +196,21 @@ class Ctx:
             shutil.rmtree(self.case_dir, ignore_errors=True)
         self._cleaned = True
         os.makedirs(self.case_dir, exist_ok=True)
+        # share frequent string literals (XML names, namespace URIs, ...) through definitions: the cost of
+        # a cases file is literal elaboration, not evaluation
+        lit = re.compile(r"\[\d+(?:;\d+)+\]")
+        counts = {}
+        for c in cases:
+            for m in lit.findall(c):
+                if len(m) > 14:
+                    counts[m] = counts.get(m, 0) + 1
+        names = {}
+        for m, k in counts.items():
+            if k >= 3:
+                names[m] = "k%d_" % len(names)
+        if names:
+            header = header + "\n" + "\n".join("Definition %s : list N := %s." % (v, k) for k, v in names.items()) + "\n"
+            cases = [lit.sub(lambda m: names.get(m.group(0), m.group(0)), c) for c in cases]
         files = []
         for k in range(0, len(cases), shard):
             chunk = cases[k:k + shard]
